@@ -7,6 +7,7 @@ package message
 // applied, once per crash mode (process kill, power loss, torn writes).
 
 import (
+	"fmt"
 	"hash/fnv"
 	"math/rand/v2"
 	"os"
@@ -244,4 +245,28 @@ func diskDigest(fs *vfs.MemFS) uint64 {
 	}
 	walk("/")
 	return h.Sum64()
+}
+
+// diskListing renders the file names and sizes of a cloned disk (debugging aid).
+func diskListing(fs *vfs.MemFS) string {
+	out := ""
+	var walk func(dir string)
+	walk = func(dir string) {
+		names, _ := fs.List(dir)
+		sort.Strings(names)
+		for _, n := range names {
+			p := fs.PathJoin(dir, n)
+			st, err := fs.Stat(p)
+			if err != nil {
+				continue
+			}
+			if st.IsDir() {
+				walk(p)
+				continue
+			}
+			out += fmt.Sprintf("%s:%d ", p, st.Size())
+		}
+	}
+	walk("/")
+	return out
 }
